@@ -225,6 +225,27 @@ def use_lemma(fn, *a, **k):
     return fn(*a, **k)
 
 
+def snapshot(x):
+    import copy as _c
+    if isinstance(x, list):
+        return [snapshot(e) for e in x]
+    if isinstance(x, tuple):
+        return tuple(snapshot(e) for e in x)
+    if isinstance(x, dict):
+        return {k: snapshot(v) for k, v in x.items()}
+    if isinstance(x, np.ndarray):
+        return x.copy()
+    return x
+
+
+def start_read_log():
+    raise NotReplayable("read-set obligations are symbolic-only")
+
+
+def stop_read_log(o=None):
+    raise NotReplayable("read-set obligations are symbolic-only")
+
+
 def withheld(name):
     raise NotReplayable("dependence-set obligations are symbolic-only")
 
